@@ -1,7 +1,7 @@
 (* C43 — The producer never outruns the consumer's demand.
    Same model and quantification as C42 (C42/Model.v, all legitimate fault schedules of any length); [fx] selects the
-   registration rule of the producer controller (false: demandUpTo := currentSeq, the code as it is; true:
-   min(demandUpTo, currentSeq), the proposed repair) — the theorems hold for both on whole-payload flows. *)
+   registration rule of the producer controller (false: demandUpTo := currentSeq, the code before /repo commit 22a84ff;
+   true: min(demandUpTo, currentSeq), the repaired rule) — the theorems hold for both on whole-payload flows. *)
 From Coq Require Import ZArith List Bool.
 From GV Require Import C42.Model C42.Lemmas C42.InvP C42.InvC C42.Proofs.
 From GV Require C42.Examples.
@@ -38,11 +38,13 @@ Theorem C43_buffer_within_window : forall sess notify W fx ops,
   lb_sorted (c_exp (sC s)) (c_buf (sC s)) /\ (forall e, In e (c_buf (sC s)) -> snd e <= c_upto (sC s)).
 Proof. intros. eapply buffer_below_window; try eassumption; apply reach_inv; assumption. Qed.
 
-(* Chunked flows (one message = several sequence numbers). The literal property FAILS on the code as it is: the
+(* Chunked flows (one message = several sequence numbers). The literal property FAILED on the code before the repair
+   (/repo commit 22a84ff = fixes/C43-registration-demand.diff): the
    registration rule demandUpTo := currentSeq lifts the demand to sequences that were stored beyond it, and the
    pending chunks are then emitted beyond everything the consumer controller ever requested. Witness schedule in the
    demand-ledger model of C43/Chunked.v (window 4, two messages of three chunks, a re-registration between Stored
-   and StoredAck); checks/C43.py replays it on the real controllers (corpus/C43) and reports it as a known finding. *)
+   and StoredAck); checks/C43.py replays it on the real controllers (corpus/C43) on every run; on an unrepaired tree it is reported
+   under the signature chunked-flow:re-registration-lifts-demandUpTo-to-currentSeq-beyond-highest-request. *)
 Theorem C43_chunked_registration_refuted : exists ops, l_maxemit (lrun false ops) > l_maxreq (lrun false ops).
 Proof. exact chunked_refuted. Qed.
 
